@@ -443,7 +443,9 @@ func (e *Engine) verifyFunction(key string) (res *FuncResult) {
 		v := f.havocVal(fv.Type(), "fv."+fv.Name(), f.heap)
 		f.freeVars = append(f.freeVars, v)
 		_ = i
-		f.params[fv.Name()] = f.sval(v, fv.Type())
+		// a captured variable: the name denotes the variable (current value / struct address)
+		f.vals[fv] = v
+		f.debugAddr[fv.Name()] = fv
 	}
 	c.assume(ge(c.nalloc(f.heap), tZero))
 	for _, g := range e.ghosts {
@@ -484,6 +486,13 @@ func (e *Engine) verifyFunction(key string) (res *FuncResult) {
 	o := c.oblige("requires-sat", short+"#requires-sat", tTrue, tTrue, f.pos(fn.Pos()), "preconditions and type invariants are satisfiable")
 	o.WantSat = true
 	f.runRegion(rpo(fn), nil, nil, nil)
+	// every `at call X#k` clause must have found its call site
+	for _, ac := range ct.AtCalls {
+		if f.callOrd["atn "+ac.Callee] < ac.Ordinal {
+			c.oblige("assert", fmt.Sprintf("%s#at:%s#%d.site-exists", short, ac.Callee, ac.Ordinal), tTrue, tFalse, f.pos(fn.Pos()),
+				fmt.Sprintf("the function contains call #%d to %s (the contract attaches an obligation to it)", ac.Ordinal, ac.Callee))
+		}
+	}
 	// postconditions per return site
 	var retConds []Term
 	for i, r := range f.rets {
